@@ -1,0 +1,8 @@
+//go:build !verif
+
+// Package verifhook provides named verification points. Without the "verif" build tag
+// Point is an empty function that the compiler inlines away.
+package verifhook
+
+// Point marks a named point in the code. It does nothing in normal builds.
+func Point(string) {}
